@@ -209,7 +209,11 @@ func newRprog(p program) *rprog {
 			}
 			rp.pols = append(rp.pols, b.Build())
 		case "hedge":
-			b := hedgepolicy.BuilderWithDelay[int](time.Hour).WithMaxHedges(pl.MaxHedges)
+			hd := time.Hour
+			if pl.WaitDelay {
+				hd = 60 * time.Millisecond
+			}
+			b := hedgepolicy.BuilderWithDelay[int](hd).WithMaxHedges(pl.MaxHedges)
 			if pl.CancelNone {
 				b.CancelIf(func(int, error) bool { return false })
 			}
